@@ -71,7 +71,7 @@ KINDS = {
 }
 QUICK_KINDS = ('f64vec', 'intvec', 'real', 'mat22')
 
-BODIES = ('smooth', 'vector', 'unknown', 'string', 'probe')
+BODIES = ('smooth', 'vector', 'unknown', 'string', 'probe', 'stored')       # stored: hands back an array the program holds
 THOROUGH_BODIES = BODIES + ('probe2', 'probe-nested')
 EXCS = {'RuntimeError': RuntimeError, 'KeyError': KeyError, 'ZeroDivisionError': ZeroDivisionError}
 
@@ -88,6 +88,8 @@ def body_text(fam, rank, body):
             return '{(x*x),x}'
         if body == 'string':
             return '{x;"abc"}'
+        if body == 'stored':
+            return '{x;k}'                  # the global k itself, unchanged (setup: k::[7.0 8.0 9.0])
         if body == 'unknown':
             return '{(' + (red if fam == 'grad' else '') + 'x*x)+nosuch}'
         return '{' + (red if fam == 'grad' else '') + core + '}'
@@ -102,6 +104,8 @@ def body_text(fam, rank, body):
             return '{(w*w),b' + (',c' if third else '') + '}'
         if body == 'string':
             return '{w;b;"abc"}'
+        if body == 'stored':
+            return '{b;w}'
         if body == 'unknown':
             return '{((' + red + 'w*w)+b*b' + c + ')+nosuch}'
         return '{(' + red + w + ')+(' + b + ')' + c + '}'
@@ -115,6 +119,8 @@ def body_text(fam, rank, body):
         return '{((w*w)*b' + c + '),b}'
     if body == 'string':
         return '{w;b;"abc"}'
+    if body == 'stored':
+        return '{b;w}'                      # the parameter w itself while b is probed
     if body == 'unknown':
         return '{((w*w)*b' + c + ')+nosuch}'
     if body == 'probe':
@@ -131,7 +137,7 @@ def scenario_texts(form, kind, body):
     if ftxt is None:
         return None
     smooth = body_text(fam + ('3' if how == 'multi3' else ''), rank, 'smooth')
-    setup = []
+    setup = ['k::[7.0 8.0 9.0]'] if body == 'stored' else []
     if how == 'lit':
         point = lit
         call = 'f(' + lit + ')'
